@@ -363,7 +363,7 @@ def _case(draw):
     if draw(st.integers(0, 10)) == 0:
         return draw(_threads_case())
     reqs = draw(st.lists(_id_request(), min_size=1, max_size=4))
-    return {"part": "ids", "requests": reqs, "strict": False}
+    return {"part": "ids", "requests": reqs, "strict": True}
 
 
 def strategy(tier):
@@ -373,9 +373,9 @@ def strategy(tier):
 def enumerate_cases(tier):
     # every curated id alone, after a valid load, and inside a list behind a valid name
     for cid in CURATED:
-        yield {"part": "ids", "requests": [{"config_id": cid}], "strict": False}
-        yield {"part": "ids", "requests": [{"config_id": "cfgA"}, {"config_ids": ["cfgA", cid]}, {"config_ids": [cid, "cfgB"]}], "strict": False}
-    yield {"part": "ids", "requests": [{"config_ids": ["cfgA", "cfgB"]}, {"config_ids": ["cfgB", "cfgA"]}, {"config_id": "cfgB"}, {"config_id": "cfgB"}], "strict": False}
+        yield {"part": "ids", "requests": [{"config_id": cid}], "strict": True}
+        yield {"part": "ids", "requests": [{"config_id": "cfgA"}, {"config_ids": ["cfgA", cid]}, {"config_ids": [cid, "cfgB"]}], "strict": True}
+    yield {"part": "ids", "requests": [{"config_ids": ["cfgA", "cfgB"]}, {"config_ids": ["cfgB", "cfgA"]}, {"config_id": "cfgB"}, {"config_id": "cfgB"}], "strict": True}
     # a fixed interleaving on ids sharing their first 16 characters
     m = lambda s: [{"role": "user", "content": s}]  # noqa: E731
     for tids in (["t" * 16, "t" * 17, "T" * 16], ["x" * 255, "x" * 254, "thread-abcdefghij"]):
